@@ -17,6 +17,11 @@ use tokio_rustls::rustls::pki_types::ServerName;
 
 pub const PASSWORD: &str = "verif-password";
 
+/// a loopback address that is unique per `uniq` (< 64000) inside the 127.`b`.0.0/16 block
+pub fn uniq_ip(b: u8, uniq: u32) -> Ipv4Addr {
+    Ipv4Addr::new(127, b, ((uniq / 250) % 256) as u8, (uniq % 250) as u8 + 1)
+}
+
 pub fn free_port() -> u16 {
     std::net::TcpListener::bind("127.0.0.1:0").and_then(|l| l.local_addr()).map(|a| a.port()).unwrap_or(0)
 }
